@@ -79,6 +79,8 @@ def events_of(stages):
         elif s == "reendorse":
             out.append({"ev": "reendorse", "accepted": [frag(f) for f in st["accepted"]],
                         "rejects": [[[c[0], c[1]] for c in sp] for sp in st["rejects"]]})
+        elif s == "regroup":
+            out.append({"ev": "regroup", "free": [frag(f) for f in st["free"]], "groups": [[frag(f) for f in g] for g in st["groups"]]})
     return out
 
 
